@@ -475,13 +475,38 @@ static void libc_probe(int idx) {
 #endif
 struct Quar { void *p; size_t size; int task; uint8_t fill; };
 static std::vector<Quar> g_quar;
-NOSAN static void rz_fill(void *p, size_t size) { memset((uint8_t *)p + size, 0xA5, HEAP_RZ); }
+// a guarded block: [front red zone][user bytes][back red zone]; the library sees the address of the user bytes
+NOSAN static void rz_fill(void *p, size_t size) {
+    memset((uint8_t *)p + size, 0xA5, HEAP_RZ);
+    memset((uint8_t *)p - HEAP_RZ, 0xA5, HEAP_RZ);
+}
 NOSAN static bool rz_ok(const void *p, size_t size) {
-    const uint8_t *z = (const uint8_t *)p + size;
+    const uint8_t *z = (const uint8_t *)p + size, *f = (const uint8_t *)p - HEAP_RZ;
     for (int i = 0; i < HEAP_RZ; i++)
-        if (z[i] != 0xA5) return false;
+        if (z[i] != 0xA5 || f[i] != 0xA5) return false;
     return true;
 }
+// What a fresh block holds is what the block released last held (that is how an allocator recycles memory): the user
+// bytes of a new block are filled with the contents of the most recently released library block, whoever released it
+// (zeros if nothing has been released in this pass). A call that reads heap memory it has not written gets, interleaved
+// with another thread's call, something else than alone.
+static uint8_t g_last_released[256];
+static size_t g_last_released_n = 0;
+static void remember_released(const void *p, size_t n) {
+    g_last_released_n = n < sizeof g_last_released ? n : sizeof g_last_released;
+    memcpy(g_last_released, p, g_last_released_n);
+}
+static void *guarded_alloc(size_t n) {
+    uint8_t *b = (uint8_t *)malloc(n + 2 * HEAP_RZ);
+    if (!b) return nullptr;
+    uint8_t *u = b + HEAP_RZ;
+    if (!g_last_released_n) memset(u, 0, n);
+    else
+        for (size_t i = 0; i < n; i += g_last_released_n) memcpy(u + i, g_last_released, n - i < g_last_released_n ? n - i : g_last_released_n);
+    rz_fill(u, n);
+    return u;
+}
+static void guarded_release(void *p) { free((uint8_t *)p - HEAP_RZ); }
 static AllocRec *live_rec(void *p) {
     for (size_t i = g_live.size(); i-- > 0;)
         if (g_live[i].p == p) return &g_live[i];
@@ -502,13 +527,14 @@ static uint32_t quarantine_flush(int tid) {
         bool ok = true;
         for (size_t k = 0; k < g_quar[i].size + HEAP_RZ && ok; k++) ok = b[k] == g_quar[i].fill;
         if (!ok) bad++;
-        free(g_quar[i].p);
+        guarded_release(g_quar[i].p);
         forget_freed(g_quar[i].p);
         g_quar.erase(g_quar.begin() + i);
     }
     return bad;
 }
 static void quarantine_block(Task *t, void *p, size_t size) {
+    remember_released(p, size);
     memset(p, 0xDD, size + HEAP_RZ);
     QUAR_POISON(p, size + HEAP_RZ); // ASan variant: any access by the library is reported at once
     g_quar.push_back({p, size, t->id, 0xDD});
@@ -575,10 +601,9 @@ static void alloc_body(void *p_) {
         bool ovf = false;
         if (c->kind == 1) ovf = __builtin_mul_overflow(c->a, c->b, &n);
         if (ovf || n > (size_t)1 << 40) { errno = ENOMEM; t->in_op = save; return; }
-        c->result = malloc(n + HEAP_RZ);
+        c->result = guarded_alloc(n);
         if (c->result) {
             if (c->kind == 1) memset(c->result, 0, n);
-            rz_fill(c->result, n);
             forget_freed(c->result);
             g_live.push_back({c->result, n, s, t->id, t->cur_op, true});
             scribble_foreign_quarantine(t);
@@ -594,45 +619,36 @@ static void alloc_body(void *p_) {
         int owner_task = t->id, owner_op = t->cur_op;
         AllocRec *rec = c->old ? live_rec(c->old) : nullptr;
         void *old = c->old;
-        if (rec) {
-            owner_task = rec->task;
-            owner_op = rec->op;
-            if (rec->guarded && !rz_ok(rec->p, rec->size)) { t->res[t->cur_op].heap_overrun++; sim_log(LOG_FAULT, 10, 0); }
-            if (!rec->guarded) {
-                // a block that came from a libc convenience allocator: move it to a guarded one
-                void *np = malloc(c->a + HEAP_RZ);
-                if (np) { memcpy(np, old, rec->size < c->a ? rec->size : c->a); free(old); }
-                untrack(old);
-                c->result = np;
-                old = nullptr;
-            }
-        } else if (old && in_quarantine(old)) {
+        if (c->a > (size_t)1 << 40) { errno = ENOMEM; t->in_op = save; return; }
+        if (old && !rec && in_quarantine(old)) {
             // the library grows a block it has released
             t->res[t->cur_op].heap_uaf++;
             sim_log(LOG_FAULT, 11, 0);
             old = nullptr;
         }
-        if (c->a > (size_t)1 << 40) { errno = ENOMEM; t->in_op = save; return; }
-        if (!c->result) {
-            if (old && rec && rec->guarded) {
-                // a successful realloc always moves the block (it may): the old block is released - poisoned and
-                // quarantined like any released block - so a pointer into it that the library keeps using shows
-                void *np = malloc(c->a + HEAP_RZ);
-                if (np) {
-                    size_t osz = rec->size;
-                    memcpy(np, old, osz < c->a ? osz : c->a);
-                    untrack(old);
-                    quarantine_block(t, old, osz);
-                    g_freed.push_back(old);
-                    c->result = np;
-                }
-            } else {
-                if (old && rec) untrack(old);
-                c->result = realloc(old, c->a + HEAP_RZ);
-            }
+        if (old && !rec) {
+            // a block this seam has never seen (handed to the library by libc): libc's business
+            c->result = realloc(old, c->a);
+            if (c->result) g_live.push_back({c->result, c->a, s, owner_task, owner_op, false});
+            t->in_op = save;
+            return;
         }
+        // a successful realloc always moves the block (it may): the old block is released - poisoned and quarantined
+        // like any released block - so a pointer into it that the library keeps using shows
+        void *np = guarded_alloc(c->a);
+        if (np && rec) {
+            owner_task = rec->task;
+            owner_op = rec->op;
+            size_t osz = rec->size;
+            bool was_guarded = rec->guarded;
+            if (was_guarded && !rz_ok(old, osz)) { t->res[t->cur_op].heap_overrun++; sim_log(LOG_FAULT, 10, 0); }
+            memcpy(np, old, osz < c->a ? osz : c->a);
+            untrack(old);
+            if (was_guarded) { quarantine_block(t, old, osz); g_freed.push_back(old); }
+            else free(old); // came from a libc convenience allocator
+        }
+        c->result = np;
         if (c->result) {
-            rz_fill(c->result, c->a);
             forget_freed(c->result);
             g_live.push_back({c->result, c->a, s, owner_task, owner_op, true});
             scribble_foreign_quarantine(t);
@@ -675,7 +691,12 @@ void __wrap_free(void *p) {
     Task *t = t_self;
     if (!t || !t->op) {
         // library code releasing outside a call: a thread-exit destructor, or a renewal of the thread (oracle H)
-        if (t && p && g_sim.in_pass) untrack(p);
+        if (t && p && g_sim.in_pass) {
+            AllocRec *rec = live_rec(p);
+            bool guarded = rec && rec->guarded;
+            untrack(p);
+            if (guarded) { guarded_release(p); return; }
+        }
         free(p);
         return;
     }
@@ -1050,6 +1071,7 @@ void (*g_handler_after)(int hid) = nullptr;
 struct HandlerCall {
     int hid, kind, code;
     const char *msg;
+    const void *ptr;
 };
 static void handler_body(void *p_) {
     HandlerCall *c = (HandlerCall *)p_;
@@ -1061,6 +1083,12 @@ static void handler_body(void *p_) {
     h.kind = c->kind;
     h.code = c->code;
     h.msgh = c->msg ? hash_bytes(c->msg, strlen(c->msg)) : 0;
+    {
+        // the pointer argument: NULL, a position in the calling task's own memory (hashed as an offset), or something else
+        uintptr_t a = (uintptr_t)c->ptr, b = (uintptr_t)t->arena.base;
+        uint64_t pc = !a ? 0 : (a >= b && a < b + ARENA_SIZE) ? 16 + (a - b) : 1;
+        h.msgh = mix64(h.msgh, pc);
+    }
     // a message that holds the poison of a released block was read from memory the library had already released
     if (c->msg && strstr(c->msg, "\xDD\xDD\xDD\xDD")) { t->res[t->cur_op].heap_uaf++; sim_log(LOG_FAULT, 12, 0); }
     h.task = t->id;
@@ -1070,16 +1098,16 @@ static void handler_body(void *p_) {
     if (g_handler_hook) g_handler_hook(c->hid, c->code);
     t->in_op = save;
 }
-void note_handler(int hid, int kind, const char *msg, int code) {
+void note_handler(int hid, int kind, const char *msg, int code, const void *ptr) {
     Task *t = t_self;
     if (!t || !t->op) return;
-    HandlerCall c = {hid, kind, code, msg};
+    HandlerCall c = {hid, kind, code, msg, ptr};
     alt_call(handler_body, &c);
     on_event();
     if (g_handler_after) g_handler_after(hid); // on the library's stack: may call back into the library
 }
-extern "C" void sim_handler_log(const char *msg, void *, int error) { note_handler(1, 0, msg, error); }
-extern "C" void __wrap_ignore_handler_s(const char *msg, void *, int error) { note_handler(0, 0, msg, error); }
+extern "C" void sim_handler_log(const char *msg, void *ptr, int error) { note_handler(1, 0, msg, error, ptr); }
+extern "C" void __wrap_ignore_handler_s(const char *msg, void *ptr, int error) { note_handler(0, 0, msg, error, ptr); }
 
 // ------------------------------------------------------------------ arenas
 // All task arenas lie back to back in one mapping (guard pages only at the two ends): "disjoint caller data" may be
@@ -1363,9 +1391,10 @@ static std::vector<Task *> g_pool; // Task objects (arenas, semaphores) are reus
 void run_pass(const Plan &plan, const PassCfg &cfg, Strategy &strat, PassResult &out) {
     // ---- reset everything a previous pass may have left behind
     g_lib.restore_pristine();
-    for (auto &a : g_live) free(a.p);
+    for (auto &a : g_live) { if (a.guarded) guarded_release(a.p); else free(a.p); }
     g_live.clear();
     quarantine_flush(-1);
+    g_last_released_n = 0;
     g_freed.clear();
     g_locks.clear();
     g_onces.clear();
